@@ -1,5 +1,7 @@
 use crate::util::Args;
 pub mod c01;
+pub mod c08;
+pub mod c10;
 pub mod c19;
 pub mod smoke;
 
@@ -8,6 +10,8 @@ pub fn dispatch(a: &Args) {
 		"smoke" => smoke::run(a),
 		"c19" => c19::run(a),
 		"c01" => c01::run(a),
+		"c08" => c08::run(a),
+		"c10" => c10::run(a),
 		p => {
 			eprintln!("unknown property {}", p);
 			std::process::exit(2);
